@@ -242,3 +242,10 @@ func RunBatch(harnesses map[string]func()) {
 
 // Thorough reports whether the thorough tier was requested (VERIF_TIER=thorough).
 func Thorough() bool { return os.Getenv("VERIF_TIER") == "thorough" }
+
+// StringN returns an arbitrary string of exactly n characters over the class
+// (empty class: printable ASCII).
+func StringN(name string, n int, alphabet string) string {
+	v, _ := replay[key(name)].(string)
+	return v
+}
